@@ -51,3 +51,94 @@ Definition literal_char (c : Z) : bool := negb (c =? STAR) && negb (c =? QMARK) 
 Definition literal (p : list Z) : bool := forallb literal_char p.
 (* inside the modelled pattern language *)
 Definition no_bracket (p : list Z) : bool := forallb (fun c => negb (c =? LBRACK)) p.
+
+(* ================= character classes  [seq]  [!seq]  (appended; nothing above changes) =================
+   fnmatch.translate, the `[` branch: after `[` an optional `!`, then an optional `]` that counts as a member, then
+   everything up to the next `]` is the class body; no closing `]` -> the `[` is a literal character.  In the body
+   `x-y` (read left to right, the `-` neither first nor last) is the range x..y (empty when x > y), every other
+   character - `*`, `?`, `[`, `^`, `\` included - stands for itself.  An empty class matches nothing, its negation
+   any one character.  glob_match_cls agrees with glob_match on patterns without `[` (proofs/Glob_proofs.v). *)
+Definition RBRACK : Z := 93.   (* ']' *)
+Definition BANG : Z := 33.     (* '!' *)
+Definition DASH : Z := 45.     (* '-' *)
+
+(* body up to the next `]`, and what follows it *)
+Fixpoint cls_split (l : list Z) : option (list Z * list Z) :=
+  match l with
+  | [] => None
+  | c :: r => if c =? RBRACK then Some ([], r)
+              else match cls_split r with Some (b, t) => Some (c :: b, t) | None => None end
+  end.
+(* p = the pattern after `[`  ->  (negated, body, rest of the pattern) *)
+Definition cls_parse (p : list Z) : option (bool * list Z * list Z) :=
+  let nq := match p with
+            | c :: r => if c =? BANG then (true, r) else (false, p)
+            | [] => (false, p)
+            end in
+  match snd nq with
+  | [] => None
+  | c :: r =>
+      if c =? RBRACK
+      then match cls_split r with Some (b, t) => Some (fst nq, c :: b, t) | None => None end
+      else match cls_split (c :: r) with Some (b, t) => Some (fst nq, b, t) | None => None end
+  end.
+Fixpoint cls_mem (body : list Z) (d : Z) : bool :=
+  match body with
+  | [] => false
+  | c1 :: r1 =>
+      match r1 with
+      | dash :: c2 :: r2 =>
+          if dash =? DASH then ((c1 <=? d) && (d <=? c2)) || cls_mem r2 d
+          else (c1 =? d) || cls_mem r1 d
+      | _ => (c1 =? d) || cls_mem r1 d
+      end
+  end.
+
+Inductive gtoken := GStar | GAny | GLit (c : Z) | GClass (neg : bool) (body : list Z).
+
+Fixpoint gtokenize_f (fuel : nat) (p : list Z) : list gtoken :=
+  match fuel with
+  | O => []
+  | S k =>
+      match p with
+      | [] => []
+      | c :: r =>
+          if c =? STAR then GStar :: gtokenize_f k r
+          else if c =? QMARK then GAny :: gtokenize_f k r
+          else if c =? LBRACK then
+            match cls_parse r with
+            | Some (neg, body, rest) => GClass neg body :: gtokenize_f k rest
+            | None => GLit c :: gtokenize_f k r
+            end
+          else GLit c :: gtokenize_f k r
+      end
+  end.
+Definition gtokenize (p : list Z) : list gtoken := gtokenize_f (length p) p.
+
+(* does the one-character token accept d *)
+Definition gtok_ok (t : gtoken) (d : Z) : bool :=
+  match t with
+  | GStar => false
+  | GAny => true
+  | GLit c => c =? d
+  | GClass neg body => xorb neg (cls_mem body d)
+  end.
+Fixpoint gtok_match (ts : list gtoken) (s : list Z) {struct ts} : bool :=
+  match ts with
+  | [] => match s with [] => true | _ :: _ => false end
+  | GStar :: ts' =>
+      (fix star (s : list Z) : bool :=
+         gtok_match ts' s || match s with [] => false | _ :: s' => star s' end) s
+  | t :: ts' =>
+      match s with
+      | [] => false
+      | d :: s' => gtok_ok t d && gtok_match ts' s'
+      end
+  end.
+(* glob_match_cls pat s  <->  fnmatch.fnmatchcase(s, pat), classes included *)
+Definition glob_match_cls (p s : list Z) : bool := gtok_match (gtokenize p) s.
+
+Inductive gtok_rel : list gtoken -> list Z -> Prop :=
+| GR_nil : gtok_rel [] []
+| GR_star : forall ts s1 s2, gtok_rel ts s2 -> gtok_rel (GStar :: ts) (s1 ++ s2)
+| GR_one : forall t ts d s, t <> GStar -> gtok_ok t d = true -> gtok_rel ts s -> gtok_rel (t :: ts) (d :: s).
